@@ -10,12 +10,16 @@ each a rule over the memoisation sites (get_or_create / make_key) of the service
  f  tags separate quantities: key expressions of one cache are pairwise non-unifiable
  g  identity-keyed hand-rolled caches keep their referent alive
  h  reload rebuilds services: every concrete _HitenBase subclass's __setstate__ calls _setup_services
-Not applicable (declared): that a save/load round trip preserves all observable state (reflective pickling).
+Save/load round trip (reflective pickling): not decidable as a whole; two structural necessary conditions are (round 3):
+ h  the save filter accepts every state slot of every dynamics service; services of a bundle that are not the saved source hold no settable state
 
 b (added)  sibling rule: an attribute other keys of the class contain must be keyed / invalidated wherever a factory reads it
 e (added)  keyed (partial) resets must cover every dependent tag; recorded slots (self.x = get_or_create(...)) are cleared with the cache
 h (added)  reset() overrides write nothing but the cache (the load path calls reset() after restoring state)
 i  hand-rolled caches anywhere in the package: key completeness (hv.memo)
+b (round 3)  a parameter enters the key whole: no lossy projection (round, //, len, ...), no selection of fields of an object the factory hands on whole
+e (round 3)  what a factory reads is followed through properties (lazy helpers built from configuration): a setter that replaces the configuration
+   drops the results computed with the old one; an `if` guarding the invalidation in a setter compares exactly (no tolerance)
 """
 from __future__ import annotations
 
@@ -502,11 +506,9 @@ def _factory_reads(site):
     for a in ast.walk(node):
         if isinstance(a, ast.Attribute) and isinstance(a.value, ast.Name) and a.value.id == "self" and isinstance(a.ctx, ast.Load):
             out.add(a.attr)
-            hit = ri.class_member(mod, cls, a.attr)
-            if hit is not None and isinstance(hit[2], ast.FunctionDef) and "property" in ri.decorators(hit[2]):
-                for r in ast.walk(hit[2]):
-                    if isinstance(r, ast.Return) and isinstance(r.value, ast.Attribute) and isinstance(r.value.value, ast.Name) and r.value.value.id == "self":
-                        out.add(r.value.attr)
+            # ... and, through properties of the class (lazy helpers built from configuration: self.generator ->
+            # self._generator, self.continuation_config -> self._continuation_config), what those read
+            out |= _prop_reads(mod, cls, a.attr)
     return out
 
 
@@ -843,8 +845,50 @@ def _h_save_filter(chk):
     chk.floor("state slots of dynamics services examined", n, 10)
 
 
+def _h_save_sources(chk):
+    """The other decidable part of the save/load clause: WHERE the saved state is taken from.  _HitenBase.__getstate__ writes
+    the object's own __dict__ plus the filtered attributes of ONE source (_get_computed_properties_source: the dynamics
+    service).  A service of the bundle that is not that source and holds user-settable state (a property setter storing its
+    argument) is rebuilt from defaults on load: what the user set is silently lost."""
+    cmod, ccls = ri.find_def("hiten.algorithms.types.core", "_HitenBase")
+    src = next((f for f in ccls.body if isinstance(f, ast.FunctionDef) and f.name == "_get_computed_properties_source"), None)
+    if src is None:
+        raise AnalysisError("anchor: _HitenBase._get_computed_properties_source not found")
+    names = {c.value for c in ast.walk(src) if isinstance(c, ast.Constant) and isinstance(c.value, str) and not c.value.strip().count(" ")}
+    overrides = [(m.name, c.name) for m in ri.all_modules() for c in m.tree.body if isinstance(c, ast.ClassDef) and c is not ccls
+                 and any(isinstance(f, ast.FunctionDef) and f.name == "_get_computed_properties_source" for f in c.body)]
+    n = 0
+    for m in _all_service_modules():
+        for bundle in [c for c in m.tree.body if isinstance(c, ast.ClassDef) and any(bc.name == "_ServiceBundleBase" for _, bc in ri.mro(m, c)[1:])]:
+            init = next((f for f in bundle.body if isinstance(f, ast.FunctionDef) and f.name == "__init__"), None)
+            if init is None:
+                continue
+            for a in init.args.args[1:]:
+                if a.annotation is None or a.arg in names or a.arg in ("domain_obj", "persistence"):
+                    continue
+                tname = ast.unparse(a.annotation).strip("'\"").split("[")[0].split(".")[-1]
+                r = ri.resolve(m, tname)
+                if not (r and r[0] == "def" and isinstance(r[2], ast.ClassDef)):
+                    continue
+                smod, scls = r[1], r[2]
+                n += 1
+                slots = []
+                for bm, bc in ri.mro(smod, scls):
+                    for f in [f for f in bc.body if isinstance(f, ast.FunctionDef) and any(d.endswith(".setter") for d in ri.decorators(f))]:
+                        par = f.args.args[1].arg if len(f.args.args) > 1 else None
+                        if any(isinstance(st, ast.Assign) and isinstance(st.value, ast.Name) and st.value.id == par and any(isinstance(t, ast.Attribute) and isinstance(t.value, ast.Name)
+                               and t.value.id == "self" for t in st.targets) for st in ast.walk(f)):
+                            slots.append(f.name)
+                slots = sorted(set(slots))
+                chk.check(not slots or bool(overrides), "C20.h", f"{smod.name}::{scls.name}[save source]" if not slots else f"{smod.name}::{scls.name}[save source: {','.join(slots)}]",
+                          f"{bundle.name}.{a.arg} ({scls.name}) holds user-settable state {slots} but the save path reads only the {sorted(names)} service: after save/load these "
+                          f"revert to their defaults", sample=f"{bundle.name}.{a.arg}: no settable state outside the saved source", nontrivial=bool(slots))
+    chk.floor("non-source services of service bundles examined", n, 3)
+
+
 def _h_reload(chk):
     _h_save_filter(chk)
+    _h_save_sources(chk)
     n = 0
     for m in ri.all_modules():
         if not m.name.startswith("hiten.system"):
